@@ -33,7 +33,9 @@ func c08Compare(c *Ctx, o *opCase, d Delivery) {
 	// stands; what the reader delivers from there on is the same byte stream
 	var before []byte
 	seekTo := false
-	if !o.e.NeedSeek && !strings.HasPrefix(o.e.Name, "imagetype.") && x.Chance(1, 5) {
+	// (png.ScanPngHeader reports where the Exif data lies in the source, an absolute position that
+	// moves with what precedes the stream: not compared; DecodePng, which uses it, is)
+	if !strings.HasPrefix(o.e.Name, "imagetype.") && !strings.HasPrefix(o.e.Name, "imagehash.") && o.e.Name != "png.ScanPngHeader" && x.Chance(1, 5) {
 		n := []int{1, 37, 512, 4095, 4096, 5000, 4060, 8150}[x.Intn(8)] + x.Intn(40)
 		before = gen.ScreenTIFF(x.Sub().Bytes(n))
 		seekTo = !seekFail && x.Bool()
